@@ -20,6 +20,9 @@ BASES = [
     # a resizable dataset without a maximum, hard-linked, with attributes in dense storage
     [{"op": "mkds", "p": "/z", "dt": "i64", "dims": [4], "chunk": [2], "max": [-1]}, {"op": "write", "p": "/z", "data": "seq"},
      {"op": "hlink", "p": "/lz", "t": "/z"}] + [{"op": "attr", "p": "/z", "n": "n%d" % i, "v": ["i32", "s40", "f64"][i % 3]} for i in range(10)],
+    # a resizable dataset of rank 2 (a refused Resize must leave every dimension's bookkeeping alone)
+    [{"op": "mkds", "p": "/m", "dt": "i32", "dims": [4, 4], "chunk": [2, 2], "max": [8, 8]}, {"op": "write", "p": "/m", "data": "seq"},
+     {"op": "attr", "p": "/m", "n": "a", "v": "i32"}, {"op": "write", "p": "/m", "data": "rnd"}],
 ]
 
 # the failure catalogue: calls chosen to fail at each validation point (whether the library really
@@ -50,6 +53,15 @@ def failing_ops(base):
         {"op": "slink", "p": d, "t": "/x"}, {"op": "slink", "p": "", "t": "/x"}, {"op": "xlink", "p": d, "f": "o.h5", "t": "/x"},
         {"op": "xlink", "p": "/xl", "f": "", "t": "/x"},
     ]
+    # a zero extent in each dimension in turn, the other dimensions unchanged, smaller and larger
+    dd = [o for o in base if o["op"] == "mkds" and o["p"] == d][0]
+    if dd.get("max"):
+        for k in range(len(dd["dims"])):
+            for other in (lambda x: x, lambda x: max(1, x // 2), lambda x: 2 * x):
+                nd = [other(x) for x in dd["dims"]]
+                nd[k] = 0
+                out.append({"op": "resize", "p": d, "dims": nd})
+        out.append({"op": "resize", "p": d, "dims": [x * 50 for x in dd["dims"]]})
     for g in gs[:1]:
         out += [{"op": "mkgroup", "p": g}, {"op": "mkds", "p": g, "dt": "i8", "dims": [1]}]
     # a hard link under a name that is taken (by a link to the same target, or to anything)
